@@ -4,10 +4,11 @@ rest on), and the correspondence / search streams. Kept as data so that MANIFEST
 TRUSTED_BASE = [
     "Lean 4.33 kernel (thorough tier re-checks the .olean files with leanchecker)",
     "axioms allowed in property theorems: propext, Quot.sound, Classical.choice (audited with collectAxioms on every theorem of the property's modules); no sorry/admit/native_decide/bv_decide/user axioms",
-    "tools/gen (Go->Lean translator, re-run on /repo's working tree on every check) and its validation by the correspondence run",
+    "tools/gen (Go->Lean translator, re-run on /repo's working tree on every check; it refuses what it does not model - DESIGN section 12 'soundness envelope', tools/gen/selftest) and its validation by the correspondence run",
+    "tools/okgen (source-to-source generator of the no-panic twins Gen/K*.lean): trusted to guard every panic source it claims to (panic statements, index expressions, calls of functions that can panic; slice expressions, type assertions, non-constant integer division are refused); its output is ordinary Go translated by tools/gen",
     "Base/F64.lean soft-float: proved IEEE-754 round-to-nearest-even / exact for all finite operands against the decoding Spec.F64Val.ofBits (Props/IEEE.lean); trusted: that decoding (15 lines), Base/FB.lean on Inf operands and on NaN operands other than the cases proved in Props/IEEE (v4.0 Score does compute with NaN: `math.NaN()` for a missing next-lower MacroVector, `abs(NaN - x)`, `math.IsNaN` - exactly the facts `sub_nan_correct`, `abs_correct`, `isNaN_correct`; no other package produces NaN or Inf), NaN payloads unmodelled; also validated against the hardware by the float stream",
     "Base/Go.lean: Go semantics of the translated subset (uint8 wrap-around, switch, range loops, errors)",
-    "parsers: regenerated from the source (Gen/P*.lean) and proved equal to the readable models Model/Parse.lean (Props/ParseTie.lean); trusted: the translator's Go semantics for strings, slices, loops and sync.Pool.Get (any 14-slot buffer)",
+    "parsers: regenerated from the source (Gen/P*.lean) and proved equal to the readable models Model/Parse.lean (Props/ParseTie.lean); trusted: the translator's Go semantics for strings, slices, loops and sync.Pool.Get (any buffer of the length splitPool.New makes: regenerated fact pool_new, pinned to 14 slots by StateTie.pool20)",
     "Spec/*.lean: our transcription of the FIRST v2.0/v3.0/v3.1/v4.0 documents; v4 lookup table from an independent transcription (spec-data/)",
     "Go 1.23 gc compiler on amd64 without FMA contraction; this machine's FPU (correspondence runs)",
 ]
@@ -99,8 +100,12 @@ LEVEL_TEXT["C07"] = _lt("proof",
     "trusted: Lean kernel; the translator for Get/Set/validate (validated by the obj stream: Set/Get/observers from zero, random histories, random and patterned raw bytes); Base/Go.lean semantics of uint8 ops", _TECH)
 LEVEL_TEXT["C09"] = _lt("proof",
     "Theorems C09.V20…V40: Get/Set recognise exactly the Spec abbreviations (any other byte string, incl. case variants, gives *ErrInvalidMetric and no change); Set accepts "
-    "exactly the Spec value list of the metric; every reachable object is wf and every Get on it is a legal non-empty value. The consequences 'Vector() is grammatical' and "
-    "'scores do not panic' are theorems of C02 and C03-C05/C11; this check additionally judges them on every object of the obj/parse streams.",
+    "exactly the Spec value list of the metric; every reachable object is wf and every Get on it is a legal non-empty value. The consequence 'Vector() is grammatical' "
+    "is a theorem of C02. 'Every scoring function (and Vector, lenVec, get) returns without panicking' is proved on the regenerated no-panic twins (tools/okgen -> Gen/K*.lean: for every "
+    "function that can panic - a panic statement, an index expression, a callee that can - a twin that follows the same path and reports whether it returns normally): "
+    "Props/NoPanic20/30/31/40: X_ok = true for EVERY well-formed object and every API method that has a twin (v4.0 Score_ok incl. every lookupMV of a next-lower MacroVector, every "
+    "table index and severityDistance inside the loop nest), and the pinned list okPanicFree of functions with no panic source at all (Get, Set, Rating, Nomenclature, ...). "
+    "The obj/parse/score streams additionally run the real code on every generated object.",
     "trusted: as C07; Spec/Metrics.lean tables", _TECH)
 LEVEL_TEXT["C13"] = _lt("proof",
     "Theorem C13.exclusive: for every byte string at most one of the four parser models accepts (accepted => own prefix; the regenerated header constants are pairwise "
